@@ -361,6 +361,10 @@ def o_stress(rec: Recorder, case, soft=False):
             for t in ts:
                 t.join(30)
             rec.ev(nthreads)
+            if any(x is None for x in res):
+                # a thread did not finish within 30 s: inconclusive here (the owned-schedule tasks report a stuck schedule as C19/stuck/...)
+                rec.count("stress:unfinished-threads")
+                return
             for st, v in res:
                 g = ("err", type(v).__name__) if st == "err" else ("ok", canon(spec["calls"][0], v, state.get("obj")))
                 if g != exp:
